@@ -31,3 +31,44 @@ prop(
     floors=[dict(stage="alphabet", key="evaluations", min=1_000_000), dict(stage="shapes", key="v6_shapes", min=100_000)],
     assumptions=[STDLIB, "strings longer than the enumerated bounds are only sampled"],
 )
+
+NAMEGEN = ("shared name families: all label sequences of 1..3(4) labels over a 57-label boundary pool, 1..4(5) labels over a 34-label ARPA pool, "
+           "0..4(5) IPv4 prefix labels x 28 root spellings, nibble runs of length 0..35 with a distinguished label at every position x junk prefixes x root spellings, "
+           "label/total length boundaries incl. IDN, alphabet sweeps, mutants of canonical ARPA names, seeded random names")
+
+prop(
+    "C03",
+    "reference-grammar monitor: every generated name is judged by the three validators and by a regexp grammar over idna.ToASCII(s) written from the statement; "
+    "subset chain, error type and AddrError.Addr asserted on every call. " + NAMEGEN +
+    ". Non-trivial: the name reaches the label loops (non-empty, <=300 bytes) or is grammar-valid; enumerations do not repeat names, random families may (counted once per emission)",
+    [st("grammar", "names", "TestC03", timeout_q=600, timeout_t=2400)],
+    floors=[dict(stage="grammar", key="evaluations", min=1_000_000), dict(stage="grammar", key="domain_valid_by_grammar", min=10_000)],
+    assumptions=["idna.ToASCII of golang.org/x/net v0.39.0 (the version golibs pins) is the ToASCII the statement names"],
+)
+prop(
+    "C04",
+    "round-trip + canonical-form monitor: addresses are encoded and compared with an independent RFC 1035/3596 encoder, then decoded in lower/UPPER/random case with and without a trailing dot; "
+    "every name-shaped string of the shared families is given to the decoder and anything accepted must equal the canonical name of the returned address. " + NAMEGEN +
+    ". Non-trivial: a valid address round trip, or a name that mentions '.arpa' / is accepted",
+    [st("codec", "names", "TestC04", timeout_q=600, timeout_t=3000)],
+    floors=[dict(stage="codec", key="addr_roundtrips", min=100_000), dict(stage="codec", key="names_accepted", min=1_000)],
+)
+prop(
+    "C05",
+    "reference-decoder monitor: PrefixFromReversedAddr and ExtractReversedAddr are compared (success and value) with a label-sequence decoder written from the statement; "
+    "ExtractReversedAddr's reference is the longest label-aligned suffix the prefix reference accepts, gated by golibs' own ValidateDomainName (decided by C03). " + NAMEGEN +
+    ". Non-trivial: the statement accepts the name or it mentions 'arpa'",
+    [st("prefix", "names", "TestC05", timeout_q=600, timeout_t=2400)],
+    floors=[dict(stage="prefix", key="evaluations", min=1_000_000), dict(stage="prefix", key="prefix_accepted_by_statement", min=10_000)],
+)
+
+prop(
+    "C06",
+    "documented-list monitor: the CIDR lists are parsed at run time from the doc comments of IsLocallyServed / IsSpecialPurpose in /repo/netutil/subnetset.go and membership is decided prefix by prefix "
+    "(IPv4 sweep: the same list pre-merged into sorted ranges, cross-checked with the naive form at start-up). All 2^32 IPv4 addresses in both tiers; IPv6: per documented prefix first/last/+-1, every single-bit flip "
+    "and two-bit flips around the prefix boundary, with and without zone; 4in6 images; 2^16 leading words x tail templates; seeded random addresses biased to the prefixes; the zero Addr. "
+    "Non-trivial: the address lies in a documented network (each counted once)",
+    [st("lists", "c06", "TestC06", timeout_q=600, timeout_t=2400)],
+    floors=[dict(stage="lists", key="evaluations", min=8_000_000_000), dict(stage="lists", key="ipv6_boundary_probes", min=10_000)],
+    assumptions=["the doc comments of the two functions are the specification (as the property says); netip.Prefix.Contains of the pinned stdlib decides membership"],
+)
